@@ -836,8 +836,8 @@ def tri(N, M=None, k=0, dtype=float, chunks="auto", *, like=None):
     chunks = normalize_chunks(chunks, shape=(N, M), dtype=dtype)
 
     m = greater_equal(
-        arange(N, chunks=chunks[0][0], like=like).reshape(1, N).T,
-        arange(-k, M - k, chunks=chunks[1][0], like=like),
+        arange(N, chunks=(chunks[0],), like=like).reshape(1, N).T,
+        arange(-k, M - k, chunks=(chunks[1],), like=like),
     )
 
     # Avoid making a copy if the requested type is already bool
